@@ -142,6 +142,9 @@ PROPS['C04'] = {
                     'the cube set is the product of the per-group tuple sets and each group is enumerated against the assumption conjuncts that mention its input bits only: a superset of the reachable cubes (sound); mismatches are confirmed by a solver query for a concrete object and replayed natively'],
 }
 PROPS['C11']['pkgs'] = ['h20', 'h30', 'h31', 'h40']
+PROPS['C12']['pkgs'] = ['h20', 'h30', 'h31', 'h40']
+PROPS['C12']['per_harness'] = {'h40': {'handler': 'fp_oracle'}, 'h20|h30|h31': {'handler': 'fp_tabulate'}}
+PROPS['C12']['bounds'] = 'none: all effective classes of v3.1 (3 scores), v2.0 and v3.0 (base, temporal) and all 15,116,544 effective classes of v4.0 (15 metrics)'
 PROPS['C13'] = {
     'level': 'model_checking',
     'pkgs': ['hcross'],
